@@ -97,7 +97,22 @@ def _work(job):
             w.unroll = None
         if fr2 is not None:
             for o in fr2.obligations:
-                if not z3.is_expr(o.goal) or o.kind == "frame":
+                if not z3.is_expr(o.goal):
+                    continue
+                if o.kind == "frame":
+                    # an effect obligation: refuted when the (unrolled) path that writes through an input is feasible
+                    if z3.is_true(o.goal):
+                        continue
+                    s_ = z3.Solver()
+                    s_.set("timeout", 10000)
+                    s_.add(*w.axioms_for(o.pc))
+                    s_.add(*o.pc)
+                    if s_.check() == z3.sat:
+                        obs.append({"oid": o.oid, "kind": o.kind, "label": o.label, "case": o.case, "exit": o.exit_text,
+                                    "props": o.props, "clause": o.clause, "path": list(o.path), "verdict": "sat",
+                                    "backend": "effects(bounded: loops without invariant unrolled, <=2 items)", "secs": 0.0,
+                                    "detail": "", "size": 0, "outside_known": None,
+                                    "extra": {"mutations": o.extra.get("mutations")}, "unrolled": 2})
                     continue
                 text = to_smt2(w.axioms_for(o.pc + [o.goal]), o.pc, o.goal)
                 _, v, be, secs, _ = solve_text((0, text, 10000, 0, False))
